@@ -97,7 +97,11 @@ impl CommandAcknowledgementHandle {
     /// Marks the flag to indicate that the command execution is done and changes the `CommandStatus`
     pub(crate) fn done(&self, status: CommandStatus) {
         self.done.store(true, Ordering::Release);
+        #[cfg(feature = "verif")]
+        crate::cache::verif::point(crate::cache::verif::Site::AckDoneBetweenStores);
         *self.status.lock() = status;
+        #[cfg(feature = "verif")]
+        crate::cache::verif::point(crate::cache::verif::Site::AckDoneBeforeWake);
         if let Some(waker) = &self.waker_state.lock().waker {
             waker.wake_by_ref();
         }
@@ -122,6 +126,8 @@ impl Future for &CommandAcknowledgementHandle {
                 guard.waker = Some(context.waker().clone());
             }
         }
+        #[cfg(feature = "verif")]
+        crate::cache::verif::point(crate::cache::verif::Site::AckPollAfterRegister);
         if self.done.load(Ordering::Acquire) {
             return Poll::Ready(*self.status.lock());
         }
